@@ -132,7 +132,11 @@ def run(ctx):
                 L.append("addspec 0 " + hx("%s CONST UINT8 1" % nm))
         for _ in range(rng.randint(3, 16)):
             r = rng.random()
-            if i % 2 and r < 0.12:
+            if i % 2 == 0 and r < 0.08:
+                # hiddenness changed by a call other than gd_hide / gd_unhide (gd_alter_spec and the gd_alter_<type> calls clear it)
+                nm, spec = rng.choice([("k", "k CONST UINT16 3"), ("ph", "ph PHASE a 2"), ("l1", "l1 LINCOM 1 a 2 1"), ("ca", "ca CARRAY UINT8 1 2 3 4 5")])
+                L += ["hide " + nm, "lists", "alterspec 0 " + hx(spec)]
+            elif i % 2 and r < 0.12:
                 L.append("affixes 1 %s %s" % (rng.choice(["A_", "Z_", "P_", "H_", "-", "Zz_"]), rng.choice(["_S", "_T", "_B", "_Z", "-"])))
             elif r < 0.55:
                 L.append(c07.mutation(rng, st))
@@ -144,7 +148,11 @@ def run(ctx):
             elif r < 0.78:
                 tgt = rng.choice(["a", "b", "c", "l1", "k", "ca", "ph", "al", "P_x_S", "a/msa", "a/mca", "a/m", "sa", "lut.txt"] + st["added_vec"] + st["added_sca"])
                 L.append("dumpmeta")           # who uses the field about to be renamed
-                L.append("rename %s %s %d" % (tgt, "r%d%s" % (st["n"], rng.choice(["", "x", "_long_name"])), rng.choice([0, 2, 2, 4, 6])))
+                newn = "r%d%s" % (st["n"], rng.choice(["", "x", "_long_name"]))
+                if rng.random() < 0.2:
+                    # a name that is taken: by a field, by an alias, by a dangling alias (must be refused as a duplicate every time)
+                    newn = rng.choice(["b", "k", "al", "al2"] + st.setdefault("aliases", []))
+                L.append("rename %s %s %d" % (tgt, newn, rng.choice([0, 2, 2, 4, 6])))
                 L.append("dumpmeta")
                 st["n"] += 1
             elif r < 0.84:
@@ -154,7 +162,8 @@ def run(ctx):
             elif r < 0.95:
                 L.append("namespace %d %s" % (rng.choice([1, 2]), rng.choice(["-", "nsA", "nsB.sub"])))
             else:
-                L.append("alias z%d %s 0" % (st["n"], rng.choice(["al", "al2", "nosuch", "z%d" % st["n"]])))
+                L.append("alias z%d %s 0" % (st["n"], rng.choice(["al", "al2", "nosuch", "nosuch", "z%d" % st["n"]])))
+                st.setdefault("aliases", []).append("z%d" % st["n"])
                 st["n"] += 1
             L.append("lists")
         L += ["dumpmeta", "validateall", "nframes", "close"]
@@ -200,11 +209,12 @@ def run(ctx):
                 if t == "rename" and i > 0 and lines[i - 1] == "dumpmeta" and i + 1 < len(out) and lines[i + 1] == "dumpmeta" and " e=0" in out[i]:
                     oldn, newn, fl = l.split()[1], l.split()[2], int(l.split()[3])
                     newfull = (oldn.split("/")[0] + "/" + newn) if "/" in oldn else newn
-                    if fl & 2:        # GD_REN_UPDB: every use of the old name follows the rename
+                    if fl & 2 and newfull != oldn:        # GD_REN_UPDB: every use of the old name follows the rename
                         def uses(dump, name):
                             u = []
                             for it in dump.split("|"):
-                                if it.startswith("E ") and re.search(r'(?: in2?=|<)"%s(\.[a-z])?"' % re.escape(name), it):
+                                # (an alias is shown with its target's parameters: it has no uses of its own)
+                                if it.startswith("E ") and " ALIAS-OF=" not in it and re.search(r'(?: in2?=|<)"%s(\.[a-z])?"' % re.escape(name), it):
                                     u.append(it.split()[1].strip('"'))
                             return u
                         before = [x for x in uses(out[i - 1], oldn) if x != oldn and not x.startswith(oldn + "/")]
